@@ -1,12 +1,544 @@
 /-
-  C04 — property theorems only; helper lemmas live in Nutree/Lemmas.
+  C04 — Each mutating operation leaves the affected nodes at the documented place in the documented
+  order, and every other node keeps its identity, data, id, metadata, parent and sibling order.
+  Property theorems only; helper lemmas live in Nutree/Lemmas/Effect*.lean.
+
+  Further effect theorems of C04 live beside the well-formedness proofs of the operation:
+  `C01.addData_effect`, `C01.moveTo_frame`, `C01.moveTo_effect`, `C01.removeKeep_effect`,
+  `C01.setData_shape`, `C01.sort_effect`, and for copies `C07.addNode_faithful`, `C07.addTree_order`,
+  `C07.copyKids_order` (registered under C04 in obligations.json).  The effects of add and of the
+  copies are equations `t'.root = modT parent (fun l => ins l c) t.root` with `ins` the insert function
+  accepted by `insertPosition`; `modT_effect` and `insertPosition_effect` below say what such an
+  equation means node by node and position by position.
+
+  Vocabulary: `findT m t.root` is the node with identity `m` (its record `info` and its children
+  `kids`, i.e. the whole branch); `t.parentId m` the identity of its parent; `flat`/`flatL` the
+  pre-order; a registry entry `(d, l) ∈ t.byData` lists the nodes `l` under data id `d`.
 -/
 import Nutree.Model.Ops
 import Nutree.Spec.WF
+import Nutree.Properties.C01
+import Nutree.Lemmas.EffectErase
+import Nutree.Lemmas.EffectData
+import Nutree.Lemmas.EffectInsert
 namespace Nutree.C04
-open Nutree T
+open Nutree T Flt
 
-/-- placeholder obligation until the theorems of this property land: the empty tree satisfies the decidable check. -/
+/-- the empty tree satisfies the decidable check. -/
 theorem init_ok : wfB ({} : Tree) = true := by decide
+
+/-! ### the trees of the examples -/
+
+/-- a data object of the examples: string `s` with identity/hash `k`. -/
+def exAtom (k : Nat) (s : String) : Atom :=
+  { obj := k, eqc := k, hid := .int k, truthy := true, isStr := true, name := s }
+def exLeaf (id : NodeId) (a : Atom) : T := .node { id := id, data := a, did := a.hid } []
+
+/-- `root ─ 1:A ─ (2:B ─ 4:D, 3:C) ; 5:B` — node 5 is a clone of node 2. -/
+def exTree : Tree :=
+  { root := mkRoot [.node { id := 1, data := exAtom 1 "A", did := .int 1 }
+                      [.node { id := 2, data := exAtom 2 "B", did := .int 2 } [exLeaf 4 (exAtom 4 "D")],
+                       exLeaf 3 (exAtom 3 "C")],
+                    exLeaf 5 (exAtom 2 "B")],
+    byId := [1, 2, 4, 3, 5],
+    byData := [(.int 1, [1]), (.int 2, [2, 5]), (.int 4, [4]), (.int 3, [3])] }
+
+/-- `root ─ 1:A ─ 2:B ─ 3:A ; 4:C ─ 5:A` — the clone 3 of node 1 lies inside the branch of node 1. -/
+def exNested : Tree :=
+  { root := mkRoot [.node { id := 1, data := exAtom 1 "A", did := .int 1 }
+                      [.node { id := 2, data := exAtom 2 "B", did := .int 2 } [exLeaf 3 (exAtom 1 "A")]],
+                    .node { id := 4, data := exAtom 3 "C", did := .int 3 } [exLeaf 5 (exAtom 1 "A")]],
+    byId := [1, 2, 3, 4, 5], byData := [(.int 1, [1, 3, 5]), (.int 2, [2]), (.int 3, [4])] }
+
+theorem exTree_wf : WF exTree := (C01.wfB_iff _).1 (by decide)
+theorem exNested_wf : WF exNested := (C01.wfB_iff _).1 (by decide)
+
+/-! ### plain `remove()` / `del` -/
+
+/-- **`remove()` (no `keep_children`, this node only)** of the node `n` with branch `x` below `p`:
+* the parent keeps its record and its child list is the old one without `n` — same order, the same
+  child branches;
+* the records of the whole tree in pre-order are the old ones without the branch of `n`;
+* every node outside the branch is still there with the same record and the same parent; its child
+  records are the old ones (for the parent: without `n`), in the old order; it is literally unchanged
+  (the whole branch) unless `n` was below it;
+* the identities of the branch are neither reachable nor registered, and the registries are the old
+  ones without them (order of the remaining entries and of the remaining clones unchanged);
+* class and id hook of the tree are untouched. -/
+theorem removeOne_effect (t : Tree) (n p : NodeId) (x par : T) (h : WF t) (hn : n ≠ 0)
+    (hx : findT n t.root = some x) (hp : t.parentId n = some p) (hpar : findT p t.root = some par) :
+    findT p (t.removeOne n).root = some (.node par.info (eraseId n par.kids)) ∧
+    (flat (t.removeOne n).root).map T.info =
+      ((flat t.root).map T.info).filter (fun i => decide (i.id ∉ (flat x).map T.id)) ∧
+    (∀ m y, findT m t.root = some y → m ∉ (flat x).map T.id →
+      ∃ y', findT m (t.removeOne n).root = some y' ∧ y'.info = y.info ∧
+        (t.removeOne n).parentId m = t.parentId m ∧
+        y'.kids.map T.info = (eraseId n y.kids).map T.info ∧
+        (m ≠ p → y'.kids.map T.info = y.kids.map T.info) ∧
+        (n ∉ (flatL y.kids).map T.id → y' = y)) ∧
+    (∀ a ∈ (flat x).map T.id, a ∉ (flat (t.removeOne n).root).map T.id ∧ a ∉ (t.removeOne n).byId) ∧
+    (t.removeOne n).byId = t.byId.filter (fun a => decide (a ∉ (flat x).map T.id)) ∧
+    (t.removeOne n).byData =
+      (t.byData.map fun e => (e.1, e.2.filter fun a => decide (a ∉ (flat x).map T.id))).filter
+        (fun e => !e.2.isEmpty) ∧
+    (t.removeOne n).typed = t.typed ∧ (t.removeOne n).hook = t.hook := by
+  have hN := h.idsN
+  obtain ⟨par0, hpar0, rfl⟩ := parentId_eq_some hp
+  have d : Detach t.root x par0 n := ⟨hN, hx, hpar0⟩
+  have : par0 = par := Option.some.inj (d.findT_par.symm.trans hpar)
+  subst this
+  obtain ⟨e1, e2, e3, e4, e5⟩ := eff_erase_effect (R := [n]) (G := (flat x).map T.id) h
+    (C01.removeOne_WF' t n h) (removeOne_root_eq_eraseIds hN n) (eff_removeOne_reg n h)
+    (eff_removeOne_gone h hn hx)
+  have hpG : par0.id ∉ (flat x).map T.id := by
+    intro hm
+    obtain ⟨y, hy, hyp⟩ := mem_ids.1 hm
+    have : y = par0 := eq_of_id_eq hN (mem_flat_trans hy d.x_mem) d.par_mem hyp
+    subst this
+    exact eff_not_mem_flat_kid d.x_kid hy
+  refine ⟨?_, e1, ?_, e3, e4, e5, ?_, ?_⟩
+  · rw [(e2 _ _ hpar hpG).1, eraseIds_eq,
+      eraseIdsL_singleton_eq_eraseId (idsNodupL_kids d.parN) (List.mem_map.2 ⟨x, d.x_kid, d.x_id⟩)]
+  · intro m y hy hm
+    obtain ⟨f1, f2⟩ := e2 m y hy hm
+    have hkids : (eraseIds [n] y).kids.map T.info = (eraseId n y.kids).map T.info := by
+      rw [eff_eraseIds_kids_info, eff_filter_singleton]
+    refine ⟨_, f1, eraseIds_info _ _, f2, hkids, fun hmp => ?_, fun hnk => ?_⟩
+    · rw [hkids, eraseId_of_not_mem (d.not_kid_of_ne (findT_some_mem hy) (by rw [findT_some_id hy]; exact hmp))]
+    · exact eraseIds_of_disjoint (fun a ha => by rw [List.mem_singleton] at ha; subst ha; exact hnk)
+  · rw [removeOne_eq hx hp, unregister_typed]
+    show (t.removeChildren n).typed = t.typed
+    rw [removeChildren_eq hx]
+    exact unregisterAll_typed _ _
+  · rw [removeOne_eq hx hp, unregister_hook]
+    show (t.removeChildren n).hook = t.hook
+    rw [removeChildren_eq hx]
+    exact unregisterAll_hook _ _
+
+/-- example: removing node 2 (with its child 4) from `exTree`: the hypotheses hold, and 1 keeps the
+child 3, the clone 5 of node 2 stays, the registries lose 2 and 4 (key 2 keeps the clone 5). -/
+example : (exTree.removeOne 2).root =
+      mkRoot [.node { id := 1, data := exAtom 1 "A", did := .int 1 } [exLeaf 3 (exAtom 3 "C")], exLeaf 5 (exAtom 2 "B")] ∧
+    (exTree.removeOne 2).byId = [1, 3, 5] ∧
+    (exTree.removeOne 2).byData = [(.int 1, [1]), (.int 2, [5]), (.int 3, [3])] := by decide
+example := removeOne_effect exTree 2 1 _ _ exTree_wf (by decide) rfl rfl rfl
+
+/-! ### `remove_children()` / `clear()` -/
+
+/-- **`remove_children()`** on the node `n` with branch `x` (`n = 0`: `tree.clear()`):
+* `n` keeps its record and has no children;
+* the records of the whole tree in pre-order are the old ones without the strict descendants of `n`;
+* every other node outside the removed branches is still there with the same record, the same parent
+  and the same child records in the same order; it is literally unchanged unless it is an ancestor of `n`;
+* the strict descendants of `n` are neither reachable nor registered, the registries are the old ones
+  without them; class and id hook untouched; the root's `_children` becomes `None` after `clear()`. -/
+theorem removeChildren_effect (t : Tree) (n : NodeId) (x : T) (h : WF t) (hx : findT n t.root = some x) :
+    findT n (t.removeChildren n).root = some (.node x.info []) ∧
+    (flat (t.removeChildren n).root).map T.info =
+      ((flat t.root).map T.info).filter (fun i => decide (i.id ∉ (flatL x.kids).map T.id)) ∧
+    (∀ m y, findT m t.root = some y → m ∉ (flatL x.kids).map T.id →
+      ∃ y', findT m (t.removeChildren n).root = some y' ∧ y'.info = y.info ∧
+        (t.removeChildren n).parentId m = t.parentId m ∧
+        (m ≠ n → y'.kids.map T.info = y.kids.map T.info) ∧
+        (n ∉ (flat y).map T.id → y' = y)) ∧
+    (∀ a ∈ (flatL x.kids).map T.id,
+      a ∉ (flat (t.removeChildren n).root).map T.id ∧ a ∉ (t.removeChildren n).byId) ∧
+    (t.removeChildren n).byId = t.byId.filter (fun a => decide (a ∉ (flatL x.kids).map T.id)) ∧
+    (t.removeChildren n).byData =
+      (t.byData.map fun e => (e.1, e.2.filter fun a => decide (a ∉ (flatL x.kids).map T.id))).filter
+        (fun e => !e.2.isEmpty) ∧
+    (t.removeChildren n).typed = t.typed ∧ (t.removeChildren n).hook = t.hook ∧
+    (t.removeChildren n).rootNone = (t.rootNone || n == 0) := by
+  have hN := h.idsN
+  have hxm := findT_some_mem hx
+  have hxid := findT_some_id hx
+  obtain ⟨e1, e2, e3, e4, e5⟩ := eff_erase_effect (R := x.kids.map T.id) (G := idsL x.kids) h
+    (C01.removeChildren_WF t n h)
+    (by rw [removeChildren_root]; exact eff_modT_nil_eq_eraseIds hN hx)
+    ⟨_, eff_removeChildren_reg h hx⟩ (eff_removeChildren_gone h hx)
+  have hnG : n ∉ idsL x.kids := hxid ▸ id_not_mem_idsL_kids (idsNodup_of_mem_flat hN hxm)
+  refine ⟨?_, e1, ?_, e3, e4, e5, ?_, ?_, ?_⟩
+  · rw [(e2 n x hx hnG).1, eraseIds_eq, eraseIdsL_of_all_mem (fun k hk => List.mem_map_of_mem hk)]
+  · intro m y hy hm
+    obtain ⟨f1, f2⟩ := e2 m y hy hm
+    have hym := findT_some_mem hy
+    refine ⟨_, f1, eraseIds_info _ _, f2, fun hmn => ?_, fun hny => ?_⟩
+    · rw [eff_eraseIds_kids_info, List.filter_eq_self.2]
+      intro k hk
+      have := eff_kid_not_kid hN hxm hym (by rw [findT_some_id hy, hxid]; exact hmn) hk
+      simpa using this
+    · refine eraseIds_of_disjoint (fun a ha hak => hny ?_)
+      obtain ⟨c, hc, rfl⟩ := List.mem_map.1 ha
+      have hp := findParent_of_mem_kids hN hxm hc
+      have := eff_parent_mem_flat hN hym hak hp
+      exact mem_ids.2 ⟨x, this, hxid⟩
+  · rw [removeChildren_eq hx]; exact unregisterAll_typed _ _
+  · rw [removeChildren_eq hx]; exact unregisterAll_hook _ _
+  · rw [removeChildren_eq hx]
+    show ((t.unregisterAll (iterPost x)).rootNone || n == 0) = _
+    rw [unregisterAll_rootNone]
+
+/-- example: `remove_children()` on node 1 of `exTree`, and `clear()`. -/
+example : (exTree.removeChildren 1).root =
+      mkRoot [exLeaf 1 (exAtom 1 "A"), exLeaf 5 (exAtom 2 "B")] ∧
+    (exTree.removeChildren 1).byId = [1, 5] ∧
+    (exTree.removeChildren 1).byData = [(.int 1, [1]), (.int 2, [5])] ∧
+    (exTree.removeChildren 0).root = mkRoot [] ∧ (exTree.removeChildren 0).byId = [] ∧
+    (exTree.removeChildren 0).byData = [] ∧ (exTree.removeChildren 0).rootNone = true := by decide
+example := removeChildren_effect exTree 1 _ exTree_wf rfl
+
+/-! ### `remove(with_clones=True)` -/
+
+/-- **`remove(with_clones=True)`** (no `keep_children`) of the node `n` with data id `x.did`: never
+refused; with `cloneBranchIds t x.did` the identities in the branches of *all* nodes carrying that data
+id (clones nested below other clones included — they disappear with the outer clone),
+* the records of the whole tree in pre-order are the old ones without those branches;
+* every other node is still there with the same record and the same parent; its child records are the
+  old ones without the clones, in the old order; it is literally unchanged if no clone was below it;
+* the removed identities are neither reachable nor registered, the registries are the old ones
+  without them. -/
+theorem remove_withClones_effect (t : Tree) (n : NodeId) (x : T) (h : WF t)
+    (hx : findT n t.root = some x) :
+    (t.remove n false true).2 = none ∧
+    (flat (t.remove n false true).1.root).map T.info =
+      ((flat t.root).map T.info).filter (fun i => decide (i.id ∉ cloneBranchIds t x.did)) ∧
+    (∀ m y, findT m t.root = some y → m ∉ cloneBranchIds t x.did →
+      ∃ y', findT m (t.remove n false true).1.root = some y' ∧ y'.info = y.info ∧
+        (t.remove n false true).1.parentId m = t.parentId m ∧
+        y'.kids.map T.info = (y.kids.filter (fun k => k.did != x.did)).map T.info ∧
+        ((∀ z ∈ flatL y.kids, z.did ≠ x.did) → y' = y)) ∧
+    (∀ a ∈ cloneBranchIds t x.did,
+      a ∉ (flat (t.remove n false true).1.root).map T.id ∧ a ∉ (t.remove n false true).1.byId) ∧
+    (∀ z ∈ flatL t.root.kids, z.did = x.did → ∀ a ∈ (flat z).map T.id, a ∈ cloneBranchIds t x.did) ∧
+    (t.remove n false true).1.byId = t.byId.filter (fun a => decide (a ∉ cloneBranchIds t x.did)) ∧
+    (t.remove n false true).1.byData =
+      (t.byData.map fun e => (e.1, e.2.filter fun a => decide (a ∉ cloneBranchIds t x.did))).filter
+        (fun e => !e.2.isEmpty) := by
+  have hN := h.idsN
+  rw [eff_remove_clones_eq hx]
+  obtain ⟨e1, e2, e3, e4, e5⟩ := eff_erase_effect (G := cloneBranchIds t x.did) h
+    (eff_foldl_removeOne_WF _ h) (foldl_removeOne_root _ hN) (eff_foldl_removeOne_reg _ h)
+    (fun a => by rw [eff_cloneBranchIds h hx])
+  refine ⟨rfl, e1, ?_, e3, ?_, e4, e5⟩
+  · intro m y hy hm
+    obtain ⟨f1, f2⟩ := e2 m y hy hm
+    have hym := findT_some_mem hy
+    refine ⟨_, f1, eraseIds_info _ _, f2, ?_, fun hfree => ?_⟩
+    · rw [eff_eraseIds_kids_info]
+      congr 1
+      refine List.filter_congr (fun k hk => ?_)
+      have := eff_clone_list (n := n) h hx (mem_flatL_root_kids_of_mem_kids hym hk)
+      by_cases hd : k.did = x.did
+      · simp [hd, this.2 hd]
+      · simp [hd, mt this.1 hd]
+    · refine eraseIds_of_disjoint (fun a ha hak => ?_)
+      obtain ⟨z, hz, rfl⟩ := mem_idsL.1 hak
+      have hzr : z ∈ flatL t.root.kids := by
+        obtain ⟨c, hc, hzc⟩ := mem_flatL.1 hz
+        obtain ⟨k, hk, hck⟩ := mem_flatL.1 (mem_flatL_root_kids_of_mem_kids hym hc)
+        exact mem_flatL.2 ⟨k, hk, mem_flat_trans hzc hck⟩
+      exact hfree z hz ((eff_clone_list h hx hzr).1 ha)
+  · intro z hz hd a ha
+    unfold cloneBranchIds
+    rw [List.mem_flatMap]
+    exact ⟨z, List.mem_filter.2 ⟨hz, by simpa using hd⟩, ha⟩
+
+/-- example: `remove(with_clones=True)` on node 2 of `exTree` removes 2, its child 4 and the clone 5.
+Nested clones (`exNested`: the clone 3 of node 1 lies below node 1): whichever clone the call is made
+on, all of 1, 2, 3, 5 are gone and only `4:C` is left — the library does the same
+(`n.remove(with_clones=True)` on the same tree leaves `C` alone, `_self_check()` passes). -/
+example : (exTree.remove 2 false true).1.root =
+      mkRoot [.node { id := 1, data := exAtom 1 "A", did := .int 1 } [exLeaf 3 (exAtom 3 "C")]] ∧
+    (exTree.remove 2 false true).1.byId = [1, 3] ∧
+    (exTree.remove 2 false true).1.byData = [(.int 1, [1]), (.int 3, [3])] ∧
+    cloneBranchIds exTree (.int 2) = [2, 4, 5] ∧
+    (∀ n ∈ [1, 3, 5], (exNested.remove n false true).1.root = mkRoot [exLeaf 4 (exAtom 3 "C")] ∧
+      (exNested.remove n false true).1.byId = [4] ∧
+      (exNested.remove n false true).1.byData = [(.int 3, [4])] ∧ (exNested.remove n false true).2 = none) := by
+  decide
+example := remove_withClones_effect exTree 2 _ exTree_wf rfl
+example := remove_withClones_effect exNested 3 _ exNested_wf rfl
+
+/-! ### `set_data()` / `rename()` -/
+
+/-- **`set_data(data, data_id=, with_clones=)`** that succeeds on the node `n` (branch `x`).
+* The affected nodes `A` are `n` alone, or with `with_clones=True` every node carrying `n`'s data id.
+  (With clones and `with_clones=None` the call is refused — `C01.setData_refusals`; with
+  `with_clones=False` only `n` changes: it leaves its clones, which keep the old data object and id.)
+* `newData`: the data object given, unless it is the very object the node already holds (or `None`).
+* The data id `d` the affected nodes end up with: the explicit `data_id=`; else, if a new object was
+  given, the tree's `calc_data_id` hook / `hash` of it; else the old id.
+* Every affected record gets `data := newData` (if any) and `data_id := d`; its `id`, `kind`,
+  `meta` and every other record are unchanged (`F`); the records in pre-order are the images of the
+  old ones; every node is found where it was, with the same children identities in the same order
+  and the same parent; `byId` is untouched and a node is listed in the data-id index exactly under
+  its (new) data id. -/
+theorem setData_effect (t t' : Tree) (n : NodeId) (a? : Option Atom) (did? : Option DataId)
+    (wc : Option Bool) (x : T) (h : WF t) (hn : n ≠ 0) (hx : findT n t.root = some x)
+    (hr : t.setData n a? did? wc = .ok t') :
+    ∃ (d : DataId) (newData : Option Atom) (A : List NodeId) (F : Info → Info),
+      newData = a?.filter (fun a => a.obj != x.data.obj) ∧
+      (∀ d', did? = some d' → d = d') ∧
+      (did? = none → ∀ a, newData = some a → t.calcId a = .ok d) ∧
+      (did? = none → newData = none → d = x.did) ∧
+      (∀ m, m ∈ A ↔ m = n ∨ (wc = some true ∧ ∃ z ∈ flatL t.root.kids, z.id = m ∧ z.did = x.did)) ∧
+      F = (fun i => if i.id ∈ A then { i with data := newData.getD i.data, did := d } else i) ∧
+      (flat t'.root).map T.info = ((flat t.root).map T.info).map F ∧
+      (∀ m y, findT m t.root = some y →
+        ∃ y', findT m t'.root = some y' ∧ y'.info = F y.info ∧
+          y'.kids.map T.id = y.kids.map T.id ∧ t'.parentId m = t.parentId m) ∧
+      t'.byId = t.byId ∧
+      (∀ d' m, (∃ l, (d', l) ∈ t'.byData ∧ m ∈ l) ↔
+        ∃ y ∈ flatL t.root.kids, y.id = m ∧ (F y.info).did = d') ∧
+      t'.typed = t.typed ∧ t'.hook = t.hook := by
+  have hN := h.idsN
+  obtain ⟨d, hfin, hroot, hbyId, hty, hhook, _⟩ := eff_setData_root h hn hx hr
+  have hFid : ∀ i : Info, (if i.id ∈ (if wc.getD false then sdCur t x else [n])
+      then { i with data := (sdNewData x a?).getD i.data, did := d } else i).id = i.id := by
+    intro i
+    by_cases hm : i.id ∈ (if wc.getD false then sdCur t x else [n])
+    · rw [if_pos hm]
+    · rw [if_neg hm]
+  have hnd : sdNewData x a? = a?.filter (fun a => a.obj != x.data.obj) := by
+    unfold sdNewData
+    cases a? with
+    | none => rfl
+    | some a => by_cases e : a.obj = x.data.obj <;> simp [Option.filter, e]
+  refine ⟨d, sdNewData x a?, if wc.getD false then sdCur t x else [n], _, hnd, ?_, ?_, ?_, ?_, rfl, ?_, ?_, hbyId, ?_,
+    hty, hhook⟩
+  · intro d' hd'
+    subst hd'
+    unfold sdFinalDid at hfin
+    cases hs : sdNewData x a? <;> rw [hs] at hfin <;> exact hfin
+  · intro hd' a ha
+    subst hd'
+    unfold sdFinalDid at hfin
+    rw [ha] at hfin; exact hfin
+  · intro hd' ha
+    subst hd'
+    unfold sdFinalDid at hfin
+    rw [ha] at hfin; exact hfin
+  · intro m
+    have hxn : ∃ z ∈ flatL t.root.kids, z.id = n ∧ z.did = x.did :=
+      ⟨x, h.mem_flatL_of_findT hx hn, findT_some_id hx, rfl⟩
+    cases wc with
+    | none => simp
+    | some b =>
+      cases b with
+      | false => simp
+      | true =>
+        simp only [Option.getD_some, if_true, true_and]
+        rw [eff_mem_sdCur h]
+        exact ⟨Or.inr, fun hm => hm.elim (fun e => e ▸ hxn) id⟩
+  · show infos t'.root = (infos t.root).map _
+    rw [hroot, infos_mapInfoT]
+  · intro m y hy
+    refine ⟨mapInfoT (fun i => if i.id ∈ (if wc.getD false then sdCur t x else [n])
+        then { i with data := (sdNewData x a?).getD i.data, did := d } else i) y,
+      by rw [hroot, findT_mapInfoT hFid hN, hy]; rfl, mapInfoT_info _ _, eff_mapInfo_kids_id hFid y,
+      eff_parentId_mapInfoT hFid hN hroot m⟩
+  · intro d' m
+    have h' := setData_WF_of_ne h hn hr
+    rw [← Listed, h'.index.listed, hroot]
+    exact exists_node_mapInfoT hFid
+
+/-- example: on node 2 of `exTree` (clone: node 5), new data object `E` (hash 6).
+`with_clones=True`: both clones get `E` and the id 6; `with_clones=False`: only node 2 does, node 5
+keeps `B` and the id 2; no decision: refused; an explicit `data_id=` alone changes only the id. -/
+example : (exTree.setData 2 (some (exAtom 6 "E")) none (some true)).toOption.map (fun t' => (t'.root, t'.byData)) =
+      some (mkRoot [.node { id := 1, data := exAtom 1 "A", did := .int 1 }
+                      [.node { id := 2, data := exAtom 6 "E", did := .int 6 } [exLeaf 4 (exAtom 4 "D")],
+                       exLeaf 3 (exAtom 3 "C")],
+                    exLeaf 5 (exAtom 6 "E")],
+            [(.int 1, [1]), (.int 4, [4]), (.int 3, [3]), (.int 6, [2, 5])]) ∧
+    (exTree.setData 2 (some (exAtom 6 "E")) none (some false)).toOption.map (fun t' => (t'.root, t'.byData)) =
+      some (mkRoot [.node { id := 1, data := exAtom 1 "A", did := .int 1 }
+                      [.node { id := 2, data := exAtom 6 "E", did := .int 6 } [exLeaf 4 (exAtom 4 "D")],
+                       exLeaf 3 (exAtom 3 "C")],
+                    exLeaf 5 (exAtom 2 "B")],
+            [(.int 1, [1]), (.int 2, [5]), (.int 4, [4]), (.int 3, [3]), (.int 6, [2])]) ∧
+    (exTree.setData 2 (some (exAtom 6 "E")) none none).toOption.map (·.root) = none ∧
+    (exTree.setData 3 none (some (.str "x")) none).toOption.map (fun t' => (findT 3 t'.root, t'.byData)) =
+      some (some (.node { id := 3, data := exAtom 3 "C", did := .str "x" } []),
+            [(.int 1, [1]), (.int 2, [2, 5]), (.int 4, [4]), (.str "x", [3])]) := by
+  decide
+example (t' : Tree) (hr : exTree.setData 2 (some (exAtom 6 "E")) none (some true) = .ok t') :=
+  setData_effect exTree t' 2 _ _ _ _ exTree_wf (by decide) rfl hr
+
+/-! ### metadata -/
+
+/-- **`set_meta(key, value)`** as lookup laws (`metaGet` = `get_meta`, `metaKeys` = the dict order):
+`key` now maps to `value`, every other key is unchanged; an existing key keeps its place in the dict,
+a new one goes to the end; a `None` value (JSON `null`) is `clear_meta(key)`, every other value —
+falsy ones included — is stored. -/
+theorem meta_set_laws (m : Meta) (k v : String) :
+    (∀ k', metaGet (metaSet m k v) k' = if k' = k then some v else metaGet m k') ∧
+    metaKeys (metaSet m k v) = (if k ∈ metaKeys m then metaKeys m else metaKeys m ++ [k]) ∧
+    metaSetV m k "null" = metaClear m (some k) ∧
+    (v ≠ "null" → metaSetV m k v = metaSet m k v) := by
+  refine ⟨eff_metaGet_metaSet m k v, eff_metaKeys_metaSet m k v, rfl, fun hv => ?_⟩
+  unfold metaSetV
+  rw [if_neg (by simpa using hv)]
+
+/-- **`clear_meta(key)` / `clear_meta()`**: without a key everything goes (`None`); with a key that
+key is gone and every other key keeps its value and its place; the result is never an empty dict
+("None if empty"): clearing the last key gives `None`. -/
+theorem meta_clear_laws (m : Meta) (k : String) :
+    metaClear m none = none ∧
+    (∀ k', metaGet (metaClear m (some k)) k' = if k' = k then none else metaGet m k') ∧
+    metaKeys (metaClear m (some k)) = (metaKeys m).filter (· != k) ∧
+    (∀ k?, metaClear m k? ≠ some []) ∧
+    ((∀ k' ∈ metaKeys m, k' = k) → metaClear m (some k) = none) := by
+  refine ⟨by cases m <;> rfl, eff_metaGet_metaClear m k, eff_metaClear_keys m k,
+    fun k? => eff_metaClear_ne_empty m k?, eff_metaClear_last m k⟩
+
+/-- **`update_meta(values, replace=)`**: with `replace=True` the metadata *is* `values`; without, on
+a node that has no metadata, too; otherwise it is the successive `set_meta` of the items, so for
+every key the last value given wins and keys not mentioned keep their value. -/
+theorem meta_update_laws (m : Meta) (l vals : List (String × String)) :
+    metaUpdate m vals true = some vals ∧
+    metaUpdate none vals false = some vals ∧
+    metaUpdate (some l) vals false = vals.foldl (fun acc e => metaSet acc e.1 e.2) (some l) ∧
+    (∀ k, metaGet (metaUpdate (some l) vals false) k =
+      match vals.reverse.lookup k with
+      | some v => some v
+      | none => metaGet (some l) k) := by
+  refine ⟨by cases m <;> rfl, rfl, rfl, fun k => eff_metaGet_foldl_metaSet k vals (some l)⟩
+
+/-- **frame of every metadata edit**: storing the metadata `m` on node `n`
+(`setInfoT n (fun inf => { inf with nmeta := m })`) changes the `meta` field of `n` and nothing else:
+`n` keeps its other fields and its children (the same branches); the records in pre-order are the old
+ones except for that field; every other node is found where it was with the same record, the same
+children identities and the same parent, literally unchanged unless it is an ancestor of `n`. -/
+theorem setMeta_effect (t : Tree) (n : NodeId) (m : Meta) (x : T) (h : WF t)
+    (hx : findT n t.root = some x) :
+    findT n (setInfoT n (fun inf => { inf with nmeta := m }) t.root) =
+      some (.node { x.info with nmeta := m } x.kids) ∧
+    (flat (setInfoT n (fun inf => { inf with nmeta := m }) t.root)).map T.info =
+      ((flat t.root).map T.info).map (fun i => if i.id = n then { i with nmeta := m } else i) ∧
+    (∀ c y, findT c t.root = some y → c ≠ n →
+      ∃ y', findT c (setInfoT n (fun inf => { inf with nmeta := m }) t.root) = some y' ∧
+        y'.info = y.info ∧ y'.kids.map T.id = y.kids.map T.id ∧
+        (n ∉ (flat y).map T.id → y' = y)) ∧
+    (∀ c, (findParent c (setInfoT n (fun inf => { inf with nmeta := m }) t.root)).map T.id =
+      (findParent c t.root).map T.id) := by
+  have hN := h.idsN
+  have hf : ∀ i : Info, ({ i with nmeta := m } : Info).id = i.id := fun _ => rfl
+  have hFid : ∀ i : Info, (if i.id = n then ({ i with nmeta := m } : Info) else i).id = i.id := by
+    intro i; split <;> rfl
+  refine ⟨?_, ?_, ?_, ?_⟩
+  · rw [findT_setInfoT hf hN, hx, Option.map_some]
+    cases x with
+    | node i ks =>
+      have : i.id = n := findT_some_id hx
+      rw [setInfoT_node, if_pos this]
+      rfl
+  · exact infos_setInfoT hN
+  · intro c y hy hc
+    refine ⟨setInfoT n (fun inf => { inf with nmeta := m }) y, by rw [findT_setInfoT hf hN, hy]; rfl, ?_, ?_,
+      fun hny => setInfoT_of_not_mem hny⟩
+    · rw [setInfoT_info, if_neg (by rw [findT_some_id hy]; exact hc)]
+    · rw [setInfoT_eq_mapInfoT (idsNodup_of_mem_flat hN (findT_some_mem hy))]
+      exact eff_mapInfo_kids_id hFid y
+  · intro c
+    rw [setInfoT_eq_mapInfoT hN, eff_findParent_mapInfoT hFid hN]
+    cases findParent c t.root with
+    | none => rfl
+    | some par => simp [mapInfoT_id hFid]
+
+/-- examples for the metadata laws. -/
+example : metaSet (some [("a", "1"), ("b", "2")]) "a" "9" = some [("a", "9"), ("b", "2")] ∧
+    metaSet (some [("a", "1")]) "b" "0" = some [("a", "1"), ("b", "0")] ∧
+    metaSet none "a" "false" = some [("a", "false")] ∧
+    metaSetV (some [("a", "1"), ("b", "2")]) "b" "null" = some [("a", "1")] ∧
+    metaSetV (some [("a", "1")]) "a" "null" = none ∧
+    metaSetV (some [("a", "1")]) "a" "0" = some [("a", "0")] ∧
+    metaClear (some [("a", "1"), ("b", "2")]) none = none ∧
+    metaClear (some [("a", "1"), ("b", "2")]) (some "c") = some [("a", "1"), ("b", "2")] ∧
+    metaUpdate (some [("a", "1"), ("b", "2")]) [("b", "3"), ("c", "4"), ("b", "5")] false =
+      some [("a", "1"), ("b", "5"), ("c", "4")] ∧
+    metaUpdate (some [("a", "1")]) [("c", "4")] true = some [("c", "4")] ∧
+    metaGet (some [("a", "1"), ("b", "2")]) "b" = some "2" := by decide
+/-- example: metadata stored on node 2 of `exTree` — only that field of that record changes. -/
+example : setInfoT 2 (fun inf => { inf with nmeta := some [("k", "1")] }) exTree.root =
+    mkRoot [.node { id := 1, data := exAtom 1 "A", did := .int 1 }
+              [.node { id := 2, data := exAtom 2 "B", did := .int 2, nmeta := some [("k", "1")] } [exLeaf 4 (exAtom 4 "D")],
+               exLeaf 3 (exAtom 3 "C")],
+            exLeaf 5 (exAtom 2 "B")] := by decide
+example := setMeta_effect exTree 2 (some [("k", "1")]) _ exTree_wf rfl
+
+/-! ### inserting: the position given by `before`, and what an edit of one child list leaves alone -/
+
+/-- **the position given by `before`**: an accepted `before` makes the insert function put the new
+child `c` at `insertPos ks before` of the old child list `ks` — `None`/`False`: appended; `True`:
+first; an index `i`: where `list.insert(i, …)` puts it (negative from the end, clamped:
+`pyIndex i ks.length`); a sibling node: directly before it — the old children keep their order.
+Refused are exactly a `before` node that is not a child (ValueError) and an index other than 0/1 on
+a target whose `_children` is `None` (the `assert`). -/
+theorem insertPosition_effect (ks : List T) (isNone : Bool) (before : Before) (hnone : isNone = true → ks = []) :
+    (∀ ins, insertPosition ks isNone before = .ok ins →
+      ∀ c, ins ks c = ks.take (insertPos ks before) ++ c :: ks.drop (insertPos ks before)) ∧
+    (∀ e, insertPosition ks isNone before = .error e →
+      (∃ b, before = .node b ∧ b ∉ ks.map T.id ∧ e = .value) ∨
+      (∃ i, before = .idx i ∧ isNone = true ∧ i ≠ 0 ∧ i ≠ 1 ∧ e = .assertion)) :=
+  ⟨fun _ h c => eff_insertPosition h hnone c, fun _ h => eff_insertPosition_error h⟩
+
+/-- **`add_child(data, before=)`: the new leaf sits at the position given by `before`** among the
+old children of the parent, which keep their order and their branches. -/
+theorem addData_position (t t' : Tree) (next parent : NodeId) (a : Atom) (before : Before)
+    (did? : Option DataId) (kind : Option String) (p : T) (hp : findT parent t.root = some p)
+    (hr : t.addData next parent a before did? kind = .ok t') :
+    ∃ did, (did? = some did ∨ (did? = none ∧ t.calcId a = .ok did)) ∧
+      findT parent t'.root = some (.node p.info
+        (p.kids.take (insertPos p.kids before) ++
+          T.node { id := next, data := a, did := did, kind := if t.typed then some (kind.getD "child") else none } [] ::
+          p.kids.drop (insertPos p.kids before))) := by
+  obtain ⟨p', ins, did, hp', hins, hroot, hdid⟩ := C01.addData_effect' t t' next parent a before did? kind hr
+  rw [hp] at hp'
+  cases hp'
+  refine ⟨did, hdid, ?_⟩
+  rw [hroot, findT_modT_self_of hp]
+  congr 2
+  refine eff_insertPosition hins (fun hnone => ?_) _
+  unfold Tree.childrenNone at hnone
+  simpa using (Bool.and_eq_true_iff.1 hnone).1
+
+/-- **an edit of the child list of one node leaves everything else alone** (`modT p g`: the form of
+the effect equations of add, move, copy and sort).  With distinct identities and `q` the node `p`:
+`p` keeps its record and gets the child list `g q.kids`; every node that is neither in an old nor in
+a new child branch of `p` is found where it was, with the same record and the same parent; unless it
+is `p` itself its child records are the old ones in the old order; and unless it is `p` or an
+ancestor of `p` it is literally unchanged. -/
+theorem modT_effect (root q : T) (p : NodeId) (g : List T → List T) (hN : ((flat root).map T.id).Nodup)
+    (hp : findT p root = some q) :
+    findT p (modT p g root) = some (.node q.info (g q.kids)) ∧
+    (∀ m y, findT m root = some y → m ∉ (flatL q.kids).map T.id → m ∉ (flatL (g q.kids)).map T.id →
+      ∃ y', findT m (modT p g root) = some y' ∧ y'.info = y.info ∧
+        (findParent m (modT p g root)).map T.id = (findParent m root).map T.id ∧
+        (m ≠ p → y'.kids.map T.info = y.kids.map T.info) ∧
+        (p ∉ (flat y).map T.id → y' = y)) := by
+  refine ⟨findT_modT_self_of hp, fun m y hy h1 h2 => ⟨modT p g y, ?_, modT_info p g y, ?_, ?_, ?_⟩⟩
+  · rw [findT_modT_of hN hp h1 h2, hy]; rfl
+  · rw [findParent_modT_of hN hp h1 h2]
+    cases findParent m root with
+    | none => rfl
+    | some par => simp
+  · intro hmp
+    exact modT_kids_map_info (by rw [findT_some_id hy]; exact hmp)
+  · exact fun h => modT_of_not_mem h
+
+/-- examples: positions for the three children `[a, b, c]` (identities 11, 12, 13), and
+`add_child("E", before=…)` below node 1 of `exTree` (children 2, 3). -/
+example : let ks := [exLeaf 11 (exAtom 1 "a"), exLeaf 12 (exAtom 2 "b"), exLeaf 13 (exAtom 3 "c")]
+    insertPos ks .none = 3 ∧ insertPos ks .bTrue = 0 ∧ insertPos ks (.idx 1) = 1 ∧
+    insertPos ks (.idx (-1)) = 2 ∧ insertPos ks (.idx 7) = 3 ∧ insertPos ks (.idx (-9)) = 0 ∧
+    insertPos ks (.node 13) = 2 := by decide
+example : ∀ b ∈ [(Before.none, [2, 3, 6]), (.bTrue, [6, 2, 3]), (.idx 1, [2, 6, 3]), (.idx (-1), [2, 6, 3]),
+      (.idx (-5), [6, 2, 3]), (.idx 9, [2, 3, 6]), (.node 3, [2, 6, 3]), (.node 2, [6, 2, 3])],
+    ((exTree.addData 6 1 (exAtom 6 "E") b.1 none none).toOption.bind (fun t' => findT 1 t'.root)).map
+      (fun y => y.kids.map T.id) = some b.2 := by decide
+example (t' : Tree) (hr : exTree.addData 6 1 (exAtom 6 "E") (.idx (-1)) none none = .ok t') :=
+  addData_position exTree t' 6 1 _ _ none none _ rfl hr
+example := modT_effect exTree.root _ 1 (fun l => l.reverse) exTree_wf.ids rfl
 
 end Nutree.C04
